@@ -658,7 +658,7 @@ theorem find_iterAll (P : Iter → Prop) (hP : ∀ it it' s, P it → next it = 
   | case2 => intro _ _ h; simp at h
   | case3 => intro _ _ h; simp at h
   | case4 => intro _ _ h; simp at h
-  | case5 it it' s h hne =>
+  | case5 it it' s hne h =>
     intro l0 s0 heq hp
     simp only [Res.ok.injEq, Prod.mk.injEq] at heq
     obtain ⟨rfl, rfl⟩ := heq
@@ -668,7 +668,7 @@ theorem find_iterAll (P : Iter → Prop) (hP : ∀ it it' s, P it → next it = 
       refine ⟨it', ?_, hP _ _ _ hp h⟩
       rw [find_eq, h]
       cases s with
-      | ext e => exact absurd rfl (hne e)
+      | ext e => exact (hne e rfl).elim
       | done => rfl
       | invalid => rfl
   | case6 => intro _ _ h; simp at h
